@@ -524,7 +524,7 @@ func init() {
 		ID:        "C05",
 		Technique: "online checker of the Codec laws on every codec reachable from generated types (direct Size/Append/Read calls with 0/1/2/5-byte tags) + structural walk of every Marshal output",
 		Rule: "for every sub-type (field, element, key, value, pointer target; with its tag option) of every generated type the codec plenc builds is called directly on boundary-biased values including omitted ones and the empty json.Number: Size==len(Append) without a tag and with tags of index 1,15,16,2047,2048,2^28; tagged = tag+len+body (one frame per element in the repeated form); Read(body [+trailing bytes]) consumes exactly the body and yields the value; every Marshal output is walked by the model's strict parser. " +
-			"after changing a value in place the same variable is marshalled again into the re-used buffer; every third case ends with 6 goroutines marshalling the case's values at once, each result compared with the call made alone. " +
+			"after changing a value in place the same variable is marshalled again into the re-used buffer; every 23rd case: ten encodes that fail half-way (a JSON value of an unknown type inside a JSON map, array or struct field, written into the caller's buffer), each followed by the laws and the documented bytes for JSON maps, arrays and structs and maps around them on the same instance; every third case ends with 6 goroutines marshalling the case's values at once, each result compared with the call made alone. " +
 			"distinct = (sub-type, option, configuration, value-shape) hashes with a non-zero value",
 		Assume: []string{"calling convention for map codecs as used by StructCodec (map pointer for writing, address of the map variable for reading)", "model.Canon as the independent walker"},
 		Plan: func(tier string) []core.Lane {
